@@ -76,6 +76,7 @@ con_idx!(CRelFullIndex<K, V>, "CRelFullIndex", 2);
 
 struct Stats {
    sequences: u64,
+   sequences_ge2: u64,
    ops: u64,
    merges_swapped: u64,
    merges_unswapped: u64,
@@ -147,8 +148,11 @@ enum Op {
 
 fn run_sequence<I: Idx>(ops: &[Op], keys: &[u8], st: &mut Stats) {
    st.sequences += 1;
+   if ops.len() >= 2 {
+      st.sequences_ge2 += 1;
+   }
    let r = catch_unwind(AssertUnwindSafe(|| {
-      let mut local = Stats { sequences: 0, ops: 0, merges_swapped: 0, merges_unswapped: 0, viol: vec![] };
+      let mut local = Stats { sequences: 0, sequences_ge2: 0, ops: 0, merges_swapped: 0, merges_unswapped: 0, viol: vec![] };
       let (mut new, mut delta, mut total) = (I::default(), I::default(), I::default());
       let (mut mn, mut md, mut mt) = (Model::new(), Model::new(), Model::new());
       for (i, op) in ops.iter().enumerate() {
@@ -497,7 +501,7 @@ fn main() {
    let rounds = arg("rounds", 60);
    let conc_only = arg("conc_only", 0) == 1;
    let mut rng = Rng::new(seed);
-   let mut st = Stats { sequences: 0, ops: 0, merges_swapped: 0, merges_unswapped: 0, viol: vec![] };
+   let mut st = Stats { sequences: 0, sequences_ge2: 0, ops: 0, merges_swapped: 0, merges_unswapped: 0, viol: vec![] };
    let mut ex = 0;
    if !conc_only {
       ex += exhaustive::<RelIndexType1<K, V>>(len, &mut st);
@@ -517,8 +521,8 @@ fn main() {
    }
    let (cins, races) = concurrent_checks(&mut rng, rounds, &mut st);
    println!(
-      "{{\"sequences\":{},\"exhaustive_sequences\":{},\"operations\":{},\"merges_delta_larger\":{},\"merges_total_larger_or_equal\":{},\"concurrent_rounds\":{},\"concurrent_inserts\":{},\"insert_if_absent_lost_races\":{},\"violations\":{}}}",
-      st.sequences, ex, st.ops, st.merges_swapped, st.merges_unswapped, rounds, cins, races, st.viol.len()
+      "{{\"sequences\":{},\"sequences_with_2_or_more_operations\":{},\"exhaustive_sequences\":{},\"operations\":{},\"merges_delta_larger\":{},\"merges_total_larger_or_equal\":{},\"concurrent_rounds\":{},\"concurrent_inserts\":{},\"insert_if_absent_lost_races\":{},\"violations\":{}}}",
+      st.sequences, st.sequences_ge2, ex, st.ops, st.merges_swapped, st.merges_unswapped, rounds, cins, races, st.viol.len()
    );
    for (l, w) in &st.viol {
       println!("{{\"violation\":true,\"what\":\"{}\",\"witness\":\"{}\"}}", l, json_escape(w));
